@@ -13,15 +13,15 @@ theorem hardErr_none_iff (o : ROut) : o.hardErr = none ↔ (o.err = none ∨ o.e
   | some e => cases e <;> simp
 
 theorem step_of_none (C : Crypto) (r : Reader) (op : ROp) :
-    SReader.step C ⟨r, none⟩ op =
-      ((r.step C op).1, ⟨(r.step C op).2, if readErrorsSticky then (r.step C op).1.hardErr else none⟩) := by
+    SReader.step C ⟨r, none, []⟩ op =
+      ((r.step C op).1, ⟨(r.step C op).2, if readErrorsSticky then (r.step C op).1.hardErr else none, []⟩) := by
   simp [SReader.step]
 
 /-- on a schedule that the stopping semantics runs to its end, the conn with the sticky error
 behaves exactly the same (the guard is invisible as long as nothing fails). Holds whether or not
 the source has the guard (it does not use the fact `readErrorsSticky`). -/
 theorem srun_eq_run (C : Crypto) (ops : List ROp) : ∀ r : Reader,
-    (Reader.run C r ops).length = ops.length → SReader.run C ⟨r, none⟩ ops = Reader.run C r ops := by
+    (Reader.run C r ops).length = ops.length → SReader.run C ⟨r, none, []⟩ ops = Reader.run C r ops := by
   induction ops with
   | nil => intro r _; rfl
   | cons op ops ih =>
